@@ -338,3 +338,285 @@ Proof.
     + exists [x80; xca; xb5; xee; x01]. split; [reflexivity|]. apply C; cbn; try lia; try (right; discriminate).
   - exists [x0a], [x02]. split; [reflexivity|]. split; apply C; cbn; try lia; try (left; reflexivity).
 Qed.
+
+(* ========================================================================================== *)
+(* GAP CLOSING against the property text (table: header of Proofs/C15GapA.v)                    *)
+(* ========================================================================================== *)
+From BP Require Import Model.C15GapDefs Proofs.C15GapA.
+
+(* ---- microsecond resolution: distinct values are encoded differently (converses of C15_ts_tz / _tz_bytes) ---- *)
+Theorem C15_ts_pair_iff : forall a b, from_datetime a = from_datetime b <-> instant a = instant b.
+Proof. exact ts_pair_iff. Qed.
+Print Assumptions C15_ts_pair_iff.
+
+Theorem C15_dur_pair_iff : forall a b, from_timedelta a = from_timedelta b <-> a = b.
+Proof. exact dur_pair_iff. Qed.
+Print Assumptions C15_dur_pair_iff.
+
+Theorem C15_ts_bytes_iff : forall fno a b, 0 < fno < 2 ^ 29 -> in_ts_range (instant a) -> in_ts_range (instant b) ->
+  (bytes_ts fno a = bytes_ts fno b <-> instant a = instant b).
+Proof. exact bytes_ts_iff. Qed.
+Print Assumptions C15_ts_bytes_iff.
+
+Theorem C15_dur_bytes_iff : forall fno a b, 0 < fno < 2 ^ 29 -> td_rangeb a = true -> td_rangeb b = true ->
+  (bytes_dur fno a = bytes_dur fno b <-> a = b).
+Proof. exact bytes_dur_iff. Qed.
+Print Assumptions C15_dur_bytes_iff.
+
+(* the normal form stated of the code's function itself; the Duration pair carries exactly the sign of the span *)
+Theorem C15_ts_from_datetime_normal : forall dt,
+  let '(s, n) := from_datetime dt in 0 <= n < 1000000000 /\ s * 1000000000 + n = 1000 * instant dt.
+Proof. exact from_datetime_normal. Qed.
+Print Assumptions C15_ts_from_datetime_normal.
+
+Theorem C15_dur_sign : forall d,
+  let '(s, n) := from_timedelta d in
+  (d < 0 <-> s < 0 \/ n < 0) /\ (0 < d <-> 0 < s \/ 0 < n) /\ (d = 0 <-> s = 0 /\ n = 0).
+Proof. exact from_timedelta_sign. Qed.
+Print Assumptions C15_dur_sign.
+
+(* ---- the decoder's outcome as ONE equation for EVERY (seconds, nanos) - negative and oversized nanos included:
+   the reference's value or OverflowError, never another value (C15_ts_decode_overflow needed 0 <= nanos < 1e9;
+   Duration had no overflow half) ---- *)
+Theorem C15_ts_decode_exact : forall s n,
+  to_datetime s n = if ts_rangeb (ts_to_us s n) then Ok (mkdt (ts_to_us s n) 0) else Err EOverflow.
+Proof. exact to_datetime_exact. Qed.
+Print Assumptions C15_ts_decode_exact.
+
+Theorem C15_ts_decode_ok_iff : forall s n dt,
+  to_datetime s n = Ok dt <-> in_ts_range (ts_to_us s n) /\ dt = mkdt (ts_to_us s n) 0.
+Proof. exact to_datetime_ok_iff. Qed.
+Print Assumptions C15_ts_decode_ok_iff.
+
+Theorem C15_dur_decode_exact : forall s n,
+  to_timedelta s n = if td_rangeb (dur_to_us s n) then Ok (dur_to_us s n) else Err EOverflow.
+Proof. exact to_timedelta_exact. Qed.
+Print Assumptions C15_dur_decode_exact.
+
+Theorem C15_dur_decode_ok_iff : forall s n d,
+  to_timedelta s n = Ok d <-> Z.abs (td_days (dur_to_us s n)) <= 999999999 /\ d = dur_to_us s n.
+Proof. exact to_timedelta_ok_iff. Qed.
+Print Assumptions C15_dur_decode_ok_iff.
+
+Theorem C15_range_predicates : forall t, (ts_rangeb t = true <-> in_ts_range t) /\ (dur_rangeb t = true <-> in_dur_range t) /\
+  (td_rangeb t = true <-> Z.abs (td_days t) <= 999999999) /\ (dur_rangeb t = true -> td_rangeb t = true).
+Proof. intros t. exact (conj (ts_rangeb_iff t) (conj (dur_rangeb_iff t) (conj (td_rangeb_iff t) (dur_range_td t)))). Qed.
+Print Assumptions C15_range_predicates.
+
+(* ---- the wire round trip for every timedelta Python can hold (in_dur_range of C15_dur_wire_roundtrip is not needed);
+   neither direction checks duration.proto's +-10000-year bound ---- *)
+Theorem C15_dur_wire_roundtrip_any_timedelta : forall fno d, 0 < fno < 2 ^ 29 -> Z.abs (td_days d) <= 999999999 ->
+  exists bs, bytes_dur fno d = Ok bs /\ dur_field_wire fno d bs /\ parse_dur fno bs = Ok d.
+Proof. exact bytes_parse_dur. Qed.
+Print Assumptions C15_dur_wire_roundtrip_any_timedelta.
+
+Theorem C15_dur_no_range_check :
+  exists d, ~ in_dur_range d /\ td_rangeb d = true /\
+            from_timedelta d = (2 * DUR_MAX_S, 0) /\ to_timedelta (2 * DUR_MAX_S) 0 = Ok d.
+Proof. exact dur_no_range_check. Qed.
+Print Assumptions C15_dur_no_range_check.
+
+(* ---- the quantifier bounds the WALL clock ("datetimes in [0001-01-01, 9999-12-31T23:59:59.999999] with any fixed UTC
+   offset"); the instant of such a datetime leaves Timestamp's range by up to a day.  For EVERY aware datetime CPython can
+   hold: the encoding succeeds and is the reference's; the parse returns the instant exactly when it is in range ---- *)
+Theorem C15_ts_wire_python_datetime : forall fno dt, 0 < fno < 2 ^ 29 -> py_datetime dt = true ->
+  exists bs, bytes_ts fno dt = Ok bs /\ ts_field_wire fno (instant dt) bs /\
+             parse_ts fno bs = if ts_rangeb (instant dt) then Ok (mkdt (instant dt) 0) else Err EOverflow.
+Proof. exact bytes_ts_python. Qed.
+Print Assumptions C15_ts_wire_python_datetime.
+
+Theorem C15_ts_wire_any_instant : forall fno dt, 0 < fno < 2 ^ 29 -> - 2 ^ 63 <= instant dt / 1000000 < 2 ^ 63 ->
+  exists bs, bytes_ts fno dt = Ok bs /\ ts_field_wire fno (instant dt) bs /\
+             parse_ts fno bs = if ts_rangeb (instant dt) then Ok (mkdt (instant dt) 0) else Err EOverflow.
+Proof. exact bytes_ts_any. Qed.
+Print Assumptions C15_ts_wire_any_instant.
+
+Theorem C15_ts_roundtrip_iff : forall fno dt, 0 < fno < 2 ^ 29 -> py_datetime dt = true ->
+  ((do b <- bytes_ts fno dt; parse_ts fno b) = Ok (mkdt (instant dt) 0) <-> in_ts_range (instant dt)) /\
+  (~ in_ts_range (instant dt) -> (do b <- bytes_ts fno dt; parse_ts fno b) = Err EOverflow).
+Proof. exact bytes_ts_roundtrip_iff. Qed.
+Print Assumptions C15_ts_roundtrip_iff.
+
+(* 0001-01-01T00:00:00+01:00: wall clock inside the quantifier's range, encoded exactly, OverflowError on parse *)
+Theorem C15_ts_wall_range_refuted :
+  exists dt, py_datetime dt = true /\ in_ts_range (wall dt) /\ ~ in_ts_range (instant dt) /\
+             from_datetime dt = ts_of_us (instant dt) /\
+             (do b <- bytes_ts 1 dt; parse_ts 1 b) = Err EOverflow.
+Proof. exact ts_wall_range_refuted. Qed.
+Print Assumptions C15_ts_wall_range_refuted.
+
+Theorem C15_ts_roundtrip_same_instant : forall fno dt, 0 < fno < 2 ^ 29 -> in_ts_range (instant dt) ->
+  exists bs dt', bytes_ts fno dt = Ok bs /\ parse_ts fno bs = Ok dt' /\ instant dt' = instant dt /\ off dt' = 0.
+Proof. exact ts_roundtrip_same_instant. Qed.
+Print Assumptions C15_ts_roundtrip_same_instant.
+
+(* ---- "the exact pair the reference produces", as bytes of the whole field: the wire specification has exactly one
+   solution, and it is what betterproto writes ---- *)
+Theorem C15_ts_field_wire_unique : forall fno t a b, ts_field_wire fno t a -> ts_field_wire fno t b -> a = b.
+Proof. exact ts_field_wire_unique. Qed.
+Print Assumptions C15_ts_field_wire_unique.
+
+Theorem C15_dur_field_wire_unique : forall fno d a b, dur_field_wire fno d a -> dur_field_wire fno d b -> a = b.
+Proof. exact dur_field_wire_unique. Qed.
+Print Assumptions C15_dur_field_wire_unique.
+
+Theorem C15_ts_bytes_is_the_wire : forall fno dt w, 0 < fno < 2 ^ 29 -> - 2 ^ 63 <= instant dt / 1000000 < 2 ^ 63 ->
+  (ts_field_wire fno (instant dt) w <-> bytes_ts fno dt = Ok w).
+Proof. exact bytes_ts_is_the_wire. Qed.
+Print Assumptions C15_ts_bytes_is_the_wire.
+
+Theorem C15_dur_bytes_is_the_wire : forall fno d w, 0 < fno < 2 ^ 29 -> td_rangeb d = true ->
+  (dur_field_wire fno d w <-> bytes_dur fno d = Ok w).
+Proof. exact bytes_dur_is_the_wire. Qed.
+Print Assumptions C15_dur_bytes_is_the_wire.
+
+(* the epoch (at any offset) / the zero span, and nothing else, is written as no bytes at all *)
+Theorem C15_ts_bytes_empty_iff : forall fno dt, 0 < fno < 2 ^ 29 -> - 2 ^ 63 <= instant dt / 1000000 < 2 ^ 63 ->
+  (bytes_ts fno dt = Ok [] <-> instant dt = 0).
+Proof. exact bytes_ts_empty_iff. Qed.
+Print Assumptions C15_ts_bytes_empty_iff.
+
+Theorem C15_dur_bytes_empty_iff : forall fno d, 0 < fno < 2 ^ 29 -> td_rangeb d = true -> (bytes_dur fno d = Ok [] <-> d = 0).
+Proof. exact bytes_dur_empty_iff. Qed.
+Print Assumptions C15_dur_bytes_empty_iff.
+
+(* ---- composition with the message codec of C01 / C02 / C08 / C17 (Model/Encode.v, Decode.v run TimeCore's copies of
+   the four conversions; WellFormed.value_ok bounds datetime / timedelta values): the same functions, for ALL inputs ---- *)
+Theorem C15_codec_conversions : forall dt d s n,
+  Model.TimeCore.ts_pair_of_us (instant dt) = from_datetime dt /\
+  Model.TimeCore.dur_pair_of_us d = from_timedelta d /\
+  Model.TimeCore.us_of_ts s n = (do r <- to_datetime s n; Ok (instant r)) /\
+  Model.TimeCore.us_of_dur s n = to_timedelta s n.
+Proof. intros dt d s n. exact (conj (codec_ts_pair dt) (conj (codec_dur_pair d) (conj (codec_us_of_ts s n) (codec_us_of_dur s n)))). Qed.
+Print Assumptions C15_codec_conversions.
+
+Theorem C15_codec_value_ok : forall t,
+  (Model.TimeCore.dt_min_us <=? t) && (t <=? Model.TimeCore.dt_max_us) = ts_rangeb t /\
+  (- 315576000000000000 <=? t) && (t <=? 315576000000000000) = dur_rangeb t.
+Proof. intros t. exact (conj (codec_value_ok_ts t) (codec_value_ok_dur t)). Qed.
+Print Assumptions C15_codec_value_ok.
+
+(* ---- non-vacuity of the gap theorems ---- *)
+(* 9999-12-31T23:59:59.999999-01:00 (instant in year 10000) and 1969-12-31T23:59:59.999999+05:30 are Python datetimes;
+   the first is outside, the second inside Timestamp's range *)
+Example C15_ex_py_datetime :
+  py_datetime (mkdt DT_MAX_US (-3600000000)) = true /\ ts_rangeb (instant (mkdt DT_MAX_US (-3600000000))) = false /\
+  (do b <- bytes_ts 3 (mkdt DT_MAX_US (-3600000000)); parse_ts 3 b) = Err EOverflow /\
+  py_datetime (mkdt (-1 + 19800000000) 19800000000) = true /\ ts_rangeb (instant (mkdt (-1 + 19800000000) 19800000000)) = true /\
+  (do b <- bytes_ts 3 (mkdt (-1 + 19800000000) 19800000000); parse_ts 3 b) = Ok (mkdt (-1) 0).
+Proof. vm_compute. repeat split. Qed.
+
+(* one microsecond apart: different pairs, different bytes; the epoch at +05:30 is written as no bytes *)
+Example C15_ex_resolution :
+  from_datetime (mkdt (-1) 0) <> from_datetime (mkdt (-2) 0) /\ bytes_ts 1 (mkdt (-1) 0) <> bytes_ts 1 (mkdt (-2) 0) /\
+  from_timedelta (-1) <> from_timedelta 1 /\ bytes_dur 1 (2 ^ 53 + 1) <> bytes_dur 1 (2 ^ 53) /\
+  bytes_ts 7 (mkdt 19800000000 19800000000) = Ok [] /\ bytes_dur 7 0 = Ok [] /\
+  td_rangeb (2 ^ 53 + 1) = true /\ td_rangeb (-999999999 * 86400000000) = true /\ dur_rangeb (-999999999 * 86400000000) = false.
+Proof. vm_compute. repeat split; try reflexivity; intros H; discriminate H. Qed.
+
+(* decoding pairs no conforming writer sends: negative nanos, nanos above 1e9, seconds at the int64 end *)
+Example C15_ex_decode_exact :
+  to_datetime 0 (-1) = Ok (mkdt (-1) 0) /\ to_datetime (-62135596801) 1999999999 = Ok (mkdt (TS_MIN_US + 999999) 0) /\
+  to_datetime (2 ^ 63 - 1) 0 = Err EOverflow /\ to_datetime (-62135596801) 999999999 = Err EOverflow /\
+  to_timedelta (2 ^ 63 - 1) 0 = Err EOverflow /\ to_timedelta 1 (-1999) = Ok 999999 /\
+  to_timedelta (86400 * 1000000000) 0 = Err EOverflow /\ to_timedelta (86400 * 1000000000 - 1) 999999999 = Ok (86400 * 1000000000 * 1000000 - 1).
+Proof. vm_compute. repeat split. Qed.
+
+(* the codec's copies on the same values *)
+Example C15_ex_codec :
+  Model.TimeCore.ts_pair_of_us (-1) = (-1, 999999000) /\ Model.TimeCore.dur_pair_of_us (-1500000) = (-1, -500000000) /\
+  Model.TimeCore.us_of_ts 253402300800 0 = Err EOverflow /\ Model.TimeCore.us_of_dur (-1) (-500000000) = Ok (-1500000).
+Proof. vm_compute. repeat split. Qed.
+
+(* ---- JSON forms (Proofs/C15GapB.v, C15GapC.v) ---- *)
+From BP Require Import Proofs.C15GapB Proofs.C15GapC.
+
+(* two spans never share a text (all of Z) *)
+Theorem C15_json_dur_injective : forall a b, delta_to_json a = delta_to_json b -> a = b.
+Proof. exact delta_to_json_inj. Qed.
+Print Assumptions C15_json_dur_injective.
+
+(* K15-1 characterised: the text is the reference's EXACTLY when the span is not a whole number of seconds, and for EVERY
+   whole second it is the reference's text with ".000" put before the "s" (C15_json_dur_whole_seconds_refuted had one witness) *)
+Theorem C15_json_dur_spec_iff : forall d,
+  delta_to_json d = dur_json (fst (dur_of_us d)) (snd (dur_of_us d)) <-> d mod 1000000 <> 0.
+Proof. exact delta_to_json_spec_iff. Qed.
+Print Assumptions C15_json_dur_spec_iff.
+
+Theorem C15_json_dur_whole_seconds : forall d, d mod 1000000 = 0 ->
+  delta_to_json d = K15_1_text (fst (dur_of_us d)) (snd (dur_of_us d)).
+Proof. exact delta_to_json_whole. Qed.
+Print Assumptions C15_json_dur_whole_seconds.
+
+(* from_dict reads what the REFERENCE writes ("3s", 3 / 6 / 9 fractional digits), for every normal pair: the value of
+   Duration.ToTimedelta (below a microsecond dropped toward zero) *)
+Theorem C15_json_dur_reads_reference : forall s n,
+  dur_normal s n -> td_rangeb (dur_to_us s n) = true -> parse_duration (dur_json s n) = Ok (dur_to_us s n).
+Proof. exact parse_duration_reads_reference. Qed.
+Print Assumptions C15_json_dur_reads_reference.
+
+(* Message.to_dict()[field]: the default is left out, anything else is the text above *)
+Theorem C15_to_dict_dur : forall d,
+  (to_dict_dur d = None <-> d = 0) /\
+  (forall t, to_dict_dur d = Some t -> t = delta_to_json d /\ dur_parse t = Some (dur_of_us d) /\
+                                       (td_rangeb d = true -> parse_duration t = Ok d)).
+Proof. exact to_dict_dur_spec. Qed.
+Print Assumptions C15_to_dict_dur.
+
+Theorem C15_to_dict_ts : forall cal dt,
+  to_dict_ts cal dt = Ok (if instant dt =? 0 then None else Some (ts_json cal (snd (ts_of_us (instant dt))))).
+Proof. exact to_dict_ts_spec. Qed.
+Print Assumptions C15_to_dict_ts.
+
+(* Timestamp text: any offset gives the text of the instant, and (with the proved calendar) two instants in range never
+   share a text *)
+Theorem C15_json_ts_tz : forall cal a b, instant a = instant b -> timestamp_to_json cal a = timestamp_to_json cal b.
+Proof. exact timestamp_to_json_tz. Qed.
+Print Assumptions C15_json_ts_tz.
+
+Theorem C15_json_ts_text_iff : forall a b,
+  (Model.TimeCore.dt_min_us <=? instant a) && (instant a <=? Model.TimeCore.dt_max_us) = true ->
+  (Model.TimeCore.dt_min_us <=? instant b) && (instant b <=? Model.TimeCore.dt_max_us) = true ->
+  (timestamp_to_json (Model.Json.cal_text (instant a / 1000000)) a =
+   timestamp_to_json (Model.Json.cal_text (instant b / 1000000)) b <-> instant a = instant b).
+Proof. exact ts_text_inj. Qed.
+Print Assumptions C15_json_ts_text_iff.
+
+Example C15_ex_json_gap :
+  delta_to_json 3000000 = [x33; x2e; x30; x30; x30; x73] (* "3.000s" *) /\
+  K15_1_text 3 0 = [x33; x2e; x30; x30; x30; x73] /\ dur_json 3 0 = [x33; x73] (* "3s" *) /\
+  K15_1_text (-7) 0 = [x2d; x37; x2e; x30; x30; x30; x73] /\ delta_to_json (-7000000) = K15_1_text (-7) 0 /\
+  to_dict_dur 0 = None /\ to_dict_dur (-1) = Some [x2d; x30; x2e; x30; x30; x30; x30; x30; x31; x73] (* "-0.000001s" *) /\
+  to_dict_ts [x54] (mkdt 19800000000 19800000000) = Ok None /\
+  to_dict_ts [x54] (mkdt 1 0) = Ok (Some [x54; x2e; x30; x30; x30; x30; x30; x31; x5a]).
+Proof. vm_compute. repeat split. Qed.
+
+(* the hypotheses of C15_json_dur_reads_reference on non-trivial pairs: nine digits, negative with nanos only, whole seconds *)
+Example C15_ex_reads_reference :
+  parse_duration (dur_json 3 0) = Ok 3000000 /\ parse_duration (dur_json (-1) (-500000001)) = Ok (-1500000) /\
+  parse_duration (dur_json 0 (-999)) = Ok 0 /\ parse_duration (dur_json 0 1999) = Ok 1 /\
+  dur_json (-1) (-500000001) = [x2d; x31; x2e; x35; x30; x30; x30; x30; x30; x30; x30; x31; x73] /\
+  td_rangeb (dur_to_us (-1) (-500000001)) = true /\
+  (- 1000000000 < -500000001 < 1000000000 /\ (0 < -1 -> 0 <= -500000001) /\ (-1 < 0 -> -500000001 <= 0)).
+Proof. split; [|split; [|split; [|split; [|split; [|split]]]]]; try (vm_compute; reflexivity). lia. Qed.
+
+(* two instants of one calendar second at different offsets: different texts; the same instant at two offsets: one text *)
+Example C15_ex_ts_text :
+  let a := mkdt (1500000 + 19800000000) 19800000000 in let b := mkdt 1500000 0 in let c := mkdt 1500001 0 in
+  timestamp_to_json (Model.Json.cal_text (instant a / 1000000)) a = timestamp_to_json (Model.Json.cal_text (instant b / 1000000)) b /\
+  timestamp_to_json (Model.Json.cal_text (instant c / 1000000)) c <> timestamp_to_json (Model.Json.cal_text (instant b / 1000000)) b.
+Proof. vm_compute. split; [reflexivity|intros H; discriminate H]. Qed.
+
+(* ---- the payload the message codec of C01 / C02 / C08 writes for a datetime / timedelta value (Model/Encode.v msg_bytes
+   over the regenerated layouts) is C15's bytes_sn of C15's pair, for all values (Proofs/C15GapD.v) ---- *)
+From BP Require Proofs.C15GapD Model.Object Model.Encode.
+Theorem C15_codec_payload : forall enc wraps dt d,
+  Model.Encode.msg_bytes enc wraps (Model.Object.PDatetime (instant dt)) = (let '(s, n) := from_datetime dt in bytes_sn s n) /\
+  Model.Encode.msg_bytes enc wraps (Model.Object.PTimedelta d) = (let '(s, n) := from_timedelta d in bytes_sn s n).
+Proof. intros enc wraps dt d. exact (conj (C15GapD.codec_payload_ts enc wraps dt) (C15GapD.codec_payload_dur enc wraps d)). Qed.
+Print Assumptions C15_codec_payload.
+
+Example C15_ex_codec_payload :
+  Model.Encode.msg_bytes (fun _ => Err EType) None (Model.Object.PDatetime 1500000) = Ok [x08; x01; x10; x80; xca; xb5; xee; x01] /\
+  Model.Encode.msg_bytes (fun _ => Err EType) None (Model.Object.PTimedelta (-1)) = bytes_sn 0 (-1000).
+Proof. vm_compute. split; reflexivity. Qed.
